@@ -50,6 +50,10 @@ Definition ENoPwd := "NoPwd".
 Definition ENoFingerprint := "NoFingerprint".
 Definition EBadFingerprint := "BadFingerprint".
 Definition ESend := "Send".
+Definition EAddCand := "AddCandidate".   (* ICETransport.AddRemoteCandidate (agent creation) *)
+Definition EGather := "Gather".          (* ICEGatherer.Gather (agent creation) *)
+Definition EStop := "Stop".              (* RTPTransceiver.Stop on an inactive remote section *)
+Definition EGenerate := "Generate".      (* CreateOffer/CreateAnswer: SDP generation refused *)
 
 (* ---- signalingstate.go: checkNextSignalingState ----
    Go returns (next, nil) or (cur, InvalidModificationError). *)
@@ -123,29 +127,42 @@ Record dflags := {
   has_fp : bool;
   fp_two : bool;       (* the fingerprint value is exactly "<hash> <value>" *)
   send_ok : bool;      (* startRTPSenders succeeds once this answer is applied *)
-  has_media : bool     (* at least one media section *)
+  has_media : bool;    (* at least one media section *)
+  (* facts about the connection the description is handed to, not about the
+     text (as send_ok): *)
+  addcand_ok : bool;   (* not (the description carries a candidate and the ICE agent
+                          cannot be created): every AddRemoteCandidate returns nil *)
+  gather_ok : bool;    (* not (the gatherer is still new and Gather fails) *)
+  stop_ok : bool       (* not (a section is inactive for a transceiver whose Stop fails) *)
 }.
 Definition good_flags : dflags :=
   {| parses := true; codecs_ok := true; all_mid := true; cands_ok := true;
      has_ufrag := true; has_pwd := true; has_fp := true; fp_two := true; send_ok := true;
-     has_media := true |}.
+     has_media := true; addcand_ok := true; gather_ok := true; stop_ok := true |}.
 (* "" unmarshals without error into a description with no media sections and
    no attributes (probe): no ufrag, no pwd, no fingerprint. *)
 Definition empty_flags : dflags :=
   {| parses := true; codecs_ok := true; all_mid := true; cands_ok := true;
      has_ufrag := false; has_pwd := false; has_fp := false; fp_two := false; send_ok := true;
-     has_media := false |}.
+     has_media := false; addcand_ok := true; gather_ok := true; stop_ok := true |}.
 (* what pion generates as the answer to a description without media sections:
    session-level fingerprint only (ufrag and pwd live in media sections) *)
 Definition nomedia_flags : dflags :=
   {| parses := true; codecs_ok := true; all_mid := true; cands_ok := true;
      has_ufrag := false; has_pwd := false; has_fp := true; fp_two := true; send_ok := true;
-     has_media := false |}.
+     has_media := false; addcand_ok := true; gather_ok := true; stop_ok := true |}.
 
 Definition with_send_ok (f : dflags) (b : bool) : dflags :=
   {| parses := parses f; codecs_ok := codecs_ok f; all_mid := all_mid f; cands_ok := cands_ok f;
      has_ufrag := has_ufrag f; has_pwd := has_pwd f; has_fp := has_fp f; fp_two := fp_two f;
-     send_ok := b; has_media := has_media f |}.
+     send_ok := b; has_media := has_media f;
+     addcand_ok := addcand_ok f; gather_ok := gather_ok f; stop_ok := stop_ok f |}.
+(* the connection cannot create its ICE agent (inconsistent SettingEngine) *)
+Definition with_no_agent (f : dflags) (has_cand : bool) : dflags :=
+  {| parses := parses f; codecs_ok := codecs_ok f; all_mid := all_mid f; cands_ok := cands_ok f;
+     has_ufrag := has_ufrag f; has_pwd := has_pwd f; has_fp := has_fp f; fp_two := fp_two f;
+     send_ok := send_ok f; has_media := has_media f;
+     addcand_ok := negb has_cand; gather_ok := false; stop_ok := stop_ok f |}.
 
 Record txt := { t_id : N; t_fl : dflags }.
 Definition empty_txt : txt := {| t_id := 0; t_fl := empty_flags |}.
@@ -282,42 +299,66 @@ Definition set_local (r : repair) (n : neg) (d : desc) : neg * result unit :=
               if r_empty_rb r && sdptype_eqb (d_ty d1) Rollback then (n1, Ok tt)
               else
               let weAnswer := sdptype_eqb (d_ty d1) Answer in
-              match remote_description n1 with
-              | Some _ =>
-                  if weAnswer && negb (send_ok (t_fl (d_txt d1))) then (n1, Err ESend)
-                  else (n1, Ok tt)
-              | None => (n1, Ok tt)
-              end
+              let sent :=
+                match remote_description n1 with
+                | Some _ => negb (weAnswer && negb (send_ok (t_fl (d_txt d1))))
+                | None => true
+                end in
+              if negb sent then (n1, Err ESend)
+              (* if pc.iceGatherer.State() == ICEGathererStateNew { return pc.iceGatherer.Gather() }:
+                 a fact about the connection, read from the description as handed over *)
+              else if negb (gather_ok (t_fl (d_txt d))) then (n1, Err EGather)
+              else (n1, Ok tt)
           end
     end.
 
-(* ---- SetRemoteDescription ---- *)
+(* ---- SetRemoteDescription ----
+   (after "fix: validate the remote description before applying it": the
+   checks that only read the parsed description - mid, ICE details, fingerprint -
+   precede setDescription) *)
+(* the part of SetRemoteDescription that only reads the parsed description *)
+Definition remote_validate (isRenegotiation : bool) (d : desc) : option string :=
+  let f := t_fl (d_txt d) in
+  let weOffer := sdptype_eqb (d_ty d) Answer in
+  if negb weOffer && negb (all_mid f) then Some ENoMid
+  else if negb (cands_ok f) then Some ECandidate       (* extractICEDetails *)
+  else if negb (has_ufrag f) then Some ENoUfrag
+  else if negb (has_pwd f) then Some ENoPwd
+  else if isRenegotiation then None
+  else if negb (has_fp f) then Some ENoFingerprint     (* extractFingerprint *)
+  else if negb (fp_two f) then Some EBadFingerprint
+  else None.
+
+(* what can still fail once setDescription has stored the new state *)
+Definition remote_after (d : desc) : option string :=
+  let f := t_fl (d_txt d) in
+  let weOffer := sdptype_eqb (d_ty d) Answer in
+  if negb (codecs_ok f) then Some ECodec               (* updateFromRemoteDescription *)
+  else if negb weOffer && negb (stop_ok f) then Some EStop
+  else if negb (addcand_ok f) then Some EAddCand
+  else if weOffer && negb (send_ok f) then Some ESend
+  else None.
+
 Definition set_remote (r : repair) (n : neg) (d : desc) : neg * result unit :=
   if closed n then (n, Err EInvalidState)
   else
     let isRenegotiation := match curR n with Some _ => true | None => false end in
-    let f := t_fl (d_txt d) in
-    if negb (parses f) then (n, Err EParse)
+    if negb (parses (t_fl (d_txt d))) then (n, Err EParse)
     else
-      match set_description r n d SetRemote with
-      | (_, Some e) => (n, Err e)
-      | (n1, None) =>
-          (* the transition is applied; every error below leaves it applied *)
-          if r_empty_rb r && sdptype_eqb (d_ty d) Rollback then (n1, Ok tt)
-          else
-          if negb (codecs_ok f) then (n1, Err ECodec)
-          else
-            let weOffer := sdptype_eqb (d_ty d) Answer in
-            if negb weOffer && negb (all_mid f) then (n1, Err ENoMid)
-            else if negb (cands_ok f) then (n1, Err ECandidate)
-            else if negb (has_ufrag f) then (n1, Err ENoUfrag)
-            else if negb (has_pwd f) then (n1, Err ENoPwd)
-            else if isRenegotiation then
-              if weOffer && negb (send_ok f) then (n1, Err ESend) else (n1, Ok tt)
-            else if negb (has_fp f) then (n1, Err ENoFingerprint)
-            else if negb (fp_two f) then (n1, Err EBadFingerprint)
-            else if weOffer && negb (send_ok f) then (n1, Err ESend)
-            else (n1, Ok tt)
+      (* a repaired rollback carries no description to validate or apply *)
+      let skip := r_empty_rb r && sdptype_eqb (d_ty d) Rollback in
+      match (if skip then None else remote_validate isRenegotiation d) with
+      | Some e => (n, Err e)
+      | None =>
+          match set_description r n d SetRemote with
+          | (_, Some e) => (n, Err e)
+          | (n1, None) =>
+              (* the transition is applied; every error below leaves it applied *)
+              match (if skip then None else remote_after d) with
+              | Some e => (n1, Err e)
+              | None => (n1, Ok tt)
+              end
+          end
       end.
 
 (* ---- CreateOffer / CreateAnswer: only what the negotiation slots see ---- *)
@@ -326,8 +367,11 @@ Definition set_last (n : neg) (o a : txt) : neg :=
      lastOffer := o; lastAnswer := a; closed := closed n; events := events n |}.
 
 (* id: identity of the text the call produces (fresh, non-zero) *)
-Definition create_offer (n : neg) (id : N) : neg * result unit :=
+(* gen: SDP generation itself (outside the model: transceiver matching, ICE
+   agent creation, codec lookup) succeeds; a refusal leaves everything alone *)
+Definition create_offer (n : neg) (id : N) (gen : bool) : neg * result unit :=
   if closed n then (n, Err EInvalidState)
+  else if negb gen then (n, Err EGenerate)
   else
     (* with a current remote description the offer is generated against the
        remote description (generateMatchedSDP), which refuses sections without mid *)
@@ -341,13 +385,14 @@ Definition create_offer (n : neg) (id : N) : neg * result unit :=
 
 (* snd: whether this connection's senders can start under the answer produced
    (false when the answer drops the codec of a bound track) *)
-Definition create_answer (n : neg) (id : N) (snd : bool) : neg * result unit :=
+Definition create_answer (n : neg) (id : N) (snd gen : bool) : neg * result unit :=
   match remote_description n with
   | None => (n, Err EInvalidState)
   | Some rd =>
       if closed n then (n, Err EInvalidState)
       else if negb (sstate_eqb (st n) HaveRemoteOffer) && negb (sstate_eqb (st n) HaveLocalPranswer)
       then (n, Err EInvalidState)
+      else if negb gen then (n, Err EGenerate)
       else if negb (all_mid (t_fl (d_txt rd))) then (n, Err ENoMid)   (* generateMatchedSDP *)
       else
         let fl := if has_media (t_fl (d_txt rd)) then good_flags else nomedia_flags in
@@ -360,16 +405,16 @@ Definition close_pc (n : neg) : neg :=
      lastOffer := lastOffer n; lastAnswer := lastAnswer n; closed := true; events := events n |}.
 
 Inductive pcop :=
-| OCreateOffer (id : N)
-| OCreateAnswer (id : N) (snd : bool)
+| OCreateOffer (id : N) (gen : bool)
+| OCreateAnswer (id : N) (snd gen : bool)
 | OSetLocal (d : desc)
 | OSetRemote (d : desc)
 | OClose.
 
 Definition step_r (r : repair) (n : neg) (o : pcop) : neg * result unit :=
   match o with
-  | OCreateOffer id => create_offer n id
-  | OCreateAnswer id snd => create_answer n id snd
+  | OCreateOffer id gen => create_offer n id gen
+  | OCreateAnswer id snd gen => create_answer n id snd gen
   | OSetLocal d => set_local r n d
   | OSetRemote d => set_remote r n d
   | OClose => (close_pc n, Ok tt)
